@@ -79,7 +79,7 @@ impl<M> XfrDataProvider<M> for Provider {
 pub(super) struct RacyStore {
     inner: Zone,
     apex: StoredName,
-    pending: std::sync::Mutex<Option<(usize, Box<dyn WritableZone>)>>,
+    pub pending: Arc<std::sync::Mutex<Option<(usize, Box<dyn WritableZone>)>>>,
     reads: std::sync::atomic::AtomicUsize,
     pub fired: Arc<std::sync::atomic::AtomicBool>,
 }
@@ -95,7 +95,7 @@ impl RacyStore {
         RacyStore {
             apex: inner.apex_name().clone(),
             inner,
-            pending: std::sync::Mutex::new(Some((fire_at_read, pending))),
+            pending: Arc::new(std::sync::Mutex::new(Some((fire_at_read, pending)))),
             reads: std::sync::atomic::AtomicUsize::new(0),
             fired: Arc::new(std::sync::atomic::AtomicBool::new(false)),
         }
@@ -227,9 +227,14 @@ async fn run(_tier: Tier) {
     // party" right after the request path's first or second read() of the
     // zone: the response must then describe the old or the new version,
     // never a mixture.
-    let racy = matches!(ask, Ask::Axfr | Ask::IxfrNoJournal) && sim::chance("racy_commit", 1, 4);
+    // With more RRsets than the walk's channel holds the walk is still under
+    // way - parked, waiting for the responder - when the call returns: then
+    // the commit may also land right there, in the middle of the walk.
+    let commit_mid_walk = hosts >= 100 && matches!(ask, Ask::Axfr | Ask::IxfrNoJournal) && sim::chance("commit_in_the_middle_of_the_walk", 1, 2);
+    let racy = commit_mid_walk || (matches!(ask, Ask::Axfr | Ask::IxfrNoJournal) && sim::chance("racy_commit", 1, 4));
     let mut next_content: Option<Content> = None;
     let mut fired_flag = None;
+    let mut late_commit: Option<Arc<std::sync::Mutex<Option<(usize, Box<dyn WritableZone>)>>>> = None;
     let zone = if racy {
         use super::zonestore::{apply_add, rrset_of, RecSpec};
         let w = zone.write().await;
@@ -251,8 +256,11 @@ async fn run(_tier: Tier) {
         }
         drop(root);
         next_content = Some(c);
-        let store = RacyStore::new(zone.clone(), 1 + sim::draw("racy_commit.at_read", 3) as usize, w);
+        let store = RacyStore::new(zone.clone(), if commit_mid_walk { usize::MAX } else { 1 + sim::draw("racy_commit.at_read", 3) as usize }, w);
         fired_flag = Some(store.fired.clone());
+        if commit_mid_walk {
+            late_commit = Some(store.pending.clone());
+        }
         sim::stat("probe.commit_prepared_to_land_between_reads");
         Zone::new(store)
     } else {
@@ -321,6 +329,20 @@ async fn run(_tier: Tier) {
         }
         _ => Box::pin(XfrMiddlewareSvc::<Vec<u8>, NoSvc, (), Provider>::new(NoSvc, provider, 1).call(request).await),
     };
+    if let Some(p) = late_commit {
+        // (Two turns of the runtime: the walk has begun and is parked.)
+        tokio::task::yield_now().await;
+        tokio::task::yield_now().await;
+        if let Some((_, mut w)) = p.lock().unwrap().take() {
+            let _ = futures_util::FutureExt::now_or_never(w.commit(false));
+            drop(w);
+            if let Some(f) = &fired_flag {
+                f.store(true, std::sync::atomic::Ordering::SeqCst);
+            }
+            sim::stat("probe.commit_landed_in_the_middle_of_the_walk");
+            ev!("another party commits a new version while the zone walk is under way");
+        }
+    }
     let mut wires: Vec<Wire> = Vec::new();
     let mut ended = false;
     loop {
